@@ -31,16 +31,20 @@ func newMemStore(ctx context.Context, first uint64, table gpbft.PowerEntries) (*
 	return cs, ds
 }
 
+// datastore under the store of the most recently built exchange network (for injecting crash states)
+var cxLastDS datastore.Datastore
+
 func newCxNet(ctx context.Context, first uint64, table gpbft.PowerEntries, stored []*certs.FinalityCertificate) *cxNet {
 	mn := mocknetwork.New()
 	sh, err := mn.GenPeer()
 	must(err)
 	ch, err := mn.GenPeer()
 	must(err)
-	cs, _ := newMemStore(ctx, first, table)
+	cs, ds := newMemStore(ctx, first, table)
 	for _, c := range stored {
 		must(cs.Put(ctx, c))
 	}
+	cxLastDS = ds
 	srv := &certexchange.Server{NetworkName: verifNet, Host: sh, Store: cs}
 	must(mn.LinkAll())
 	must(srv.Start(ctx))
